@@ -2033,7 +2033,16 @@ impl<'a> TokenBasedLuaGenerator<'a> {
     #[inline]
     fn needs_space(&self, next_character: char) -> bool {
         if let Some(last) = self.output.chars().last() {
-            utils::should_break_with_space(last, next_character)
+            let break_with_space = match (last, next_character) {
+                // a period only needs to be kept away from the digits of a number: the
+                // digit that ends a name (`a1..b`) can be followed by one
+                ('0'..='9', '.') => self.ends_with_number_word(),
+                // `..2` is read as a concatenation, only `.2` is a number
+                ('.', '0'..='9') => !self.output.ends_with(".."),
+                _ => utils::should_break_with_space(last, next_character),
+            };
+
+            break_with_space
                 || (last == '.'
                     && (next_character.is_ascii_alphabetic() || next_character == '_')
                     && self.ends_with_number_literal())
